@@ -1,6 +1,7 @@
 package absint
 
 import (
+	"crypto/sha256"
 	"fmt"
 	"go/token"
 	"go/types"
@@ -22,9 +23,10 @@ import (
 // MULQ/ADDQ/ADCQ) are tracked as Wide values whose two halves stay paired.
 
 type LV struct {
-	Lo, Hi *big.Int
-	P      *poly.Poly // nil = not tracked
-	xorOf  [2]Val     // operands when the value was produced by XOR
+	Lo, Hi  *big.Int
+	P       *poly.Poly // nil = not tracked
+	xorOf   [2]Val     // operands when the value was produced by XOR
+	maskBit *poly.Poly // set when the word is 0 or all-ones: the selecting bit
 }
 
 type Wide struct {
@@ -65,6 +67,9 @@ func pow2(k uint) *big.Int { return new(big.Int).Lsh(big.NewInt(1), k) }
 type LimbDom struct {
 	R         *poly.Ring // integer coefficients
 	TrackPoly bool
+	// Flat: 128-bit products and carry chains are not kept paired; every word is an
+	// independent polynomial with explicit carry symbols (word-by-word Montgomery code)
+	Flat bool
 	nextWide  int
 	sums      map[[2]int]*Wide
 	hArgs     map[string]hArg // carry symbols: name -> (argument polynomial, shift)
@@ -147,7 +152,74 @@ func (d *LimbDom) shrPoly(p *poly.Poly, k uint, hi *big.Int) *poly.Poly {
 	if c, ok := p.IsConst(); ok {
 		return d.R.Const(new(big.Int).Rsh(c, k))
 	}
-	name := fmt.Sprintf("h%d(%s)", k, p.Key())
+	if q, ok := exactDiv(p, k); ok {
+		return q // every coefficient is a multiple of 2^k and the symbols are integers: the quotient is exact
+	}
+	name := hName(k, p)
+	if d.hArgs == nil {
+		d.hArgs = map[string]hArg{}
+	}
+	d.hArgs[name] = hArg{P: p, K: k}
+	if hi.Cmp(pow2(k+1)) < 0 {
+		// the quotient is 0 or 1: a carry bit (idempotent)
+		return d.R.BitVar(name)
+	}
+	return d.R.Var(name)
+}
+
+// hName is the canonical short name of the carry symbol ⌊P/2^k⌋: a digest of P's normal form
+// (which mentions inner carry symbols by their own digests), so that equal carries get equal
+// names in independent runs and nested names do not grow.
+func hName(k uint, p *poly.Poly) string {
+	key := p.Key()
+	if len(key) <= 40 {
+		return fmt.Sprintf("h%d(%s)", k, key)
+	}
+	sum := sha256.Sum256([]byte(key))
+	return fmt.Sprintf("h%d#%x", k, sum[:8])
+}
+
+// exactDiv divides an integer polynomial by 2^k when every coefficient is a multiple of 2^k.
+func exactDiv(p *poly.Poly, k uint) (*poly.Poly, bool) {
+	m := pow2(k)
+	ok := true
+	p.Terms(func(vars map[string]int, c *big.Int) {
+		if new(big.Int).Mod(c, m).Sign() != 0 {
+			ok = false
+		}
+	})
+	if !ok {
+		return nil, false
+	}
+	out := p.R.Zero()
+	p.Terms(func(vars map[string]int, c *big.Int) {
+		t := p.R.Const(new(big.Int).Div(c, m))
+		for v, e := range vars {
+			for i := 0; i < e; i++ {
+				t = t.Mul(p.R.Var(v))
+			}
+		}
+		out = out.Add(t)
+	})
+	return out, true
+}
+
+// floorDiv is ⌊P/2^k⌋ for a word whose value ranges over [lo,hi] (possibly negative).
+func (d *LimbDom) floorDiv(p *poly.Poly, k uint, lo, hi *big.Int) *poly.Poly {
+	if p == nil {
+		return nil
+	}
+	if lo.Sign() >= 0 {
+		return d.shrPoly(p, k, hi)
+	}
+	// possibly negative: the quotient may be −1; never a {0,1} symbol
+	if c, ok := p.IsConst(); ok {
+		return d.R.Const(new(big.Int).Rsh(c, k))
+	}
+	if q, ok := exactDiv(p, k); ok {
+		return q
+	}
+	name := "f" + hName(k, p)
 	if d.hArgs == nil {
 		d.hArgs = map[string]hArg{}
 	}
@@ -303,12 +375,15 @@ func (d *LimbDom) BinOp(in *Interp, op token.Token, x, y Val, xt types.Type, pos
 			return d.mk(big.NewInt(0), a.Hi, nil)
 		}
 		s := uint(k.V.Uint64())
-		hiForSym := a.Hi
-		if a.Lo.Sign() < 0 {
-			hiForSym = pow2(s) // ⌊negative/2^s⌋ is not 0: keep the carry symbol
-		}
-		return d.mk(new(big.Int).Rsh(a.Lo, s), new(big.Int).Rsh(a.Hi, s), d.shrPoly(a.P, s, hiForSym))
+		return d.mk(new(big.Int).Rsh(a.Lo, s), new(big.Int).Rsh(a.Hi, s), d.floorDiv(a.P, s, a.Lo, a.Hi))
 	case token.AND:
+		// (0 or all-ones) & K = bit·K
+		if m, ok := y.(Int); ok && a.maskBit != nil && m.V.Sign() >= 0 {
+			return d.mk(big.NewInt(0), new(big.Int).Set(m.V), a.maskBit.Scale(m.V))
+		}
+		if m, ok := x.(Int); ok && b.maskBit != nil && m.V.Sign() >= 0 {
+			return d.mk(big.NewInt(0), new(big.Int).Set(m.V), b.maskBit.Scale(m.V))
+		}
 		if m, ok := y.(Int); ok {
 			return d.andConst(a, m.V, bits)
 		}
@@ -497,6 +572,10 @@ func (d *LimbDom) Convert(in *Interp, x Val, from, to types.Type, pos ssa.Instru
 	if lv.Hi.Cmp(hi) <= 0 && lv.Lo.Cmp(lo) >= 0 {
 		return lv
 	}
+	if d.Flat && !sgn && lv.Lo.Sign() >= 0 {
+		// truncation to an unsigned type is reduction mod 2^bits
+		return d.andConst(lv, new(big.Int).Sub(pow2(uint(bits)), big.NewInt(1)), 64)
+	}
 	return d.mk(lo, hi, nil)
 }
 
@@ -563,6 +642,11 @@ func (d *LimbDom) Call(in *Interp, site ssa.Instruction, fn *ssa.Function, args 
 	if d.Prims != nil && in.P.InRepo(fn) {
 		if h, ok := d.Prims[load.ShortName(fn)]; ok {
 			return h(in, site, args), true
+		}
+	}
+	if d.Flat {
+		if res, ok := d.flatCall(in, site, fn, name, args); ok {
+			return res, true
 		}
 	}
 	switch name {
@@ -669,6 +753,154 @@ func (d *LimbDom) Call(in *Interp, site ssa.Instruction, fn *ssa.Function, args 
 			d.runAsm(in, site, fn, as.Func, args)
 			return nil, true
 		}
+	}
+	return nil, false
+}
+
+// flatCall: word-level semantics of math/bits with explicit carry symbols, and the fiat conditional move.
+func (d *LimbDom) flatCall(in *Interp, site ssa.Instruction, fn *ssa.Function, name string, args []Val) ([]Val, bool) {
+	max64 := new(big.Int).Sub(two64, big.NewInt(1))
+	pol := func(a, b *LV, f func(p, q *poly.Poly) *poly.Poly) *poly.Poly {
+		if a.P == nil || b.P == nil {
+			return nil
+		}
+		return f(a.P, b.P)
+	}
+	switch name {
+	case "math/bits.Mul64":
+		a, b := d.lift(args[0]), d.lift(args[1])
+		if a == nil || b == nil {
+			return nil, false
+		}
+		wlo, whi := new(big.Int).Mul(a.Lo, b.Lo), new(big.Int).Mul(a.Hi, b.Hi)
+		wp := pol(a, b, func(p, q *poly.Poly) *poly.Poly { return p.Mul(q) })
+		hiP := d.shrPoly(wp, 64, whi)
+		hi := d.mk(new(big.Int).Rsh(wlo, 64), new(big.Int).Rsh(whi, 64), hiP)
+		var lo Val
+		if whi.Cmp(two64) < 0 {
+			lo = d.mk(wlo, whi, wp)
+		} else {
+			var lp *poly.Poly
+			if wp != nil {
+				lp = wp.Sub(hiP.Scale(two64))
+			}
+			lo = d.mk(big.NewInt(0), max64, lp)
+			if lp != nil {
+				if c, ok := lp.IsConst(); ok {
+					lo = Int{V: c}
+				}
+			}
+		}
+		return []Val{hi, lo}, true
+	case "math/bits.Add64":
+		a, b, c := d.lift(args[0]), d.lift(args[1]), d.lift(args[2])
+		if a == nil || b == nil || c == nil {
+			return nil, false
+		}
+		slo := new(big.Int).Add(new(big.Int).Add(a.Lo, b.Lo), c.Lo)
+		shi := new(big.Int).Add(new(big.Int).Add(a.Hi, b.Hi), c.Hi)
+		var sp *poly.Poly
+		if a.P != nil && b.P != nil && c.P != nil {
+			sp = a.P.Add(b.P).Add(c.P)
+		}
+		if shi.Cmp(two64) < 0 {
+			return []Val{d.mk(slo, shi, sp), MkInt(0)}, true
+		}
+		cp := d.shrPoly(sp, 64, shi)
+		carry := d.mk(new(big.Int).Rsh(slo, 64), new(big.Int).Rsh(shi, 64), cp)
+		var lp *poly.Poly
+		if sp != nil {
+			lp = sp.Sub(cp.Scale(two64))
+		}
+		var sum Val = d.mk(big.NewInt(0), max64, lp)
+		if lp != nil {
+			if k, ok := lp.IsConst(); ok {
+				sum = Int{V: k}
+			}
+		}
+		return []Val{sum, carry}, true
+	case "math/bits.Sub64":
+		a, b, c := d.lift(args[0]), d.lift(args[1]), d.lift(args[2])
+		if a == nil || b == nil || c == nil {
+			return nil, false
+		}
+		dlo := new(big.Int).Sub(new(big.Int).Sub(a.Lo, b.Hi), c.Hi)
+		dhi := new(big.Int).Sub(new(big.Int).Sub(a.Hi, b.Lo), c.Lo)
+		var dp *poly.Poly
+		if a.P != nil && b.P != nil && c.P != nil {
+			dp = a.P.Sub(b.P).Sub(c.P)
+		}
+		if dlo.Sign() >= 0 {
+			return []Val{d.mk(dlo, dhi, dp), MkInt(0)}, true
+		}
+		// borrow ∈ {0,1}: its own idempotent symbol b, with ⌊D/2^64⌋ = −b
+		var qp *poly.Poly
+		if dp != nil {
+			if dhi.Sign() < 0 {
+				qp = d.R.Int(-1)
+			} else {
+				qp = d.R.BitVar("b" + hName(64, dp)).Neg()
+			}
+		}
+		one := big.NewInt(1)
+		isBit := func(v *LV) bool { return v.Lo.Sign() >= 0 && v.Hi.Cmp(one) <= 0 && v.P != nil }
+		switch {
+		case dp != nil && dlo.Cmp(big.NewInt(-1)) >= 0 && dhi.Sign() <= 0:
+			qp = dp // D ∈ {−1, 0}: ⌊D/2^64⌋ = D
+		case isBit(a) && isBit(b) && c.Hi.Sign() == 0:
+			qp = a.P.Mul(b.P).Sub(b.P) // bits: borrow = [a < b] = b·(1−a)
+		case isBit(a) && isBit(c) && b.Hi.Sign() == 0:
+			qp = a.P.Mul(c.P).Sub(c.P)
+		}
+		var diffP, borP *poly.Poly
+		if dp != nil {
+			diffP = dp.Sub(qp.Scale(two64))
+			borP = qp.Neg()
+		}
+		bhi := big.NewInt(1)
+		blo := big.NewInt(0)
+		if dhi.Sign() < 0 {
+			blo = big.NewInt(1)
+		}
+		return []Val{d.mk(big.NewInt(0), max64, diffP), d.mk(blo, bhi, borP)}, true
+	}
+	if in.P.InRepo(fn) && load.ShortName(fn) == "fiatScalarCmovznzU64" {
+		c, x, y := d.lift(args[1]), d.lift(args[2]), d.lift(args[3])
+		if c == nil || x == nil || y == nil {
+			return nil, false
+		}
+		okc := c.Lo.Sign() >= 0 && c.Hi.Cmp(big.NewInt(1)) <= 0
+		in.Oblige("cond∈{0,1}", site, okc, "cmovznz selects only for arg1 ∈ {0,1}")
+		lo, hi := x.Lo, x.Hi
+		if y.Lo.Cmp(lo) < 0 {
+			lo = y.Lo
+		}
+		if y.Hi.Cmp(hi) > 0 {
+			hi = y.Hi
+		}
+		var p *poly.Poly
+		if c.P != nil && x.P != nil && y.P != nil {
+			p = x.P.Add(c.P.Mul(y.P.Sub(x.P))) // arg1 = 0 → arg2, arg1 = 1 → arg3
+		}
+		if ci, ok := args[1].(Int); ok {
+			if ci.V.Sign() == 0 {
+				in.Store(site, args[0], args[2])
+			} else {
+				in.Store(site, args[0], args[3])
+			}
+			return nil, true
+		}
+		res := d.mk(lo, hi, p)
+		if lv, ok := res.(*LV); ok {
+			xi, okx := args[2].(Int)
+			yi, oky := args[3].(Int)
+			allOnes := new(big.Int).Sub(two64, big.NewInt(1))
+			if okx && oky && c.P != nil && xi.V.Sign() == 0 && toUnsigned(yi.V, 64).Cmp(allOnes) == 0 {
+				lv.maskBit = c.P
+			}
+		}
+		in.Store(site, args[0], res)
+		return nil, true
 	}
 	return nil, false
 }
